@@ -78,7 +78,7 @@ theorem membersF_mono {f : Nat} {lib : Lib} {p : Path} {ms : List Member} (h : m
     rw [membersF]
     simp only [hd, this]
 
-theorem memberEqsF_mono {f : Nat} {lib : Lib} {p : Path} {es : List (Expr × Expr)} (h : memberEqsF f lib p = .ok es) :
+theorem memberEqsF_mono {f : Nat} {lib : Lib} {p : Path} {es : List Eqn} (h : memberEqsF f lib p = .ok es) :
     memberEqsF (f + 1) lib p = .ok es := by
   induction f generalizing p es with
   | zero => simp [memberEqsF] at h
@@ -138,19 +138,26 @@ theorem instF_mono {f : Nat} {lib : Lib} {c P : Path} {outer : List MMod} {dims 
               rw [instF]
               simp only [membersF_mono hms, hdup, hfb, memberEqsF_mono heqs, this]
 
+theorem instTop_mono {f : Nat} {lib : Lib} {t : Path} {r : List Var × List IEq} (h : instTop f lib t = .ok r) :
+    instTop (f + 1) lib t = .ok r := by
+  unfold instTop at h ⊢
+  split at h
+  · cases h
+  · cases h
+  · rename_i hel
+    simp only [elemOf_mono hel, instF_mono h]
+
 theorem flattenF_mono {f : Nat} {lib : Lib} {t : Path} {m : FlatModel} (h : flattenF f lib t = .ok m) :
     flattenF (f + 1) lib t = .ok m := by
   unfold flattenF at h ⊢
   split at h
   · cases h
   · rename_i r hr
-    cases h
-    unfold instTop at hr ⊢
-    split at hr
-    · cases hr
-    · cases hr
-    · rename_i hel
-      simp only [elemOf_mono hel, instF_mono hr]
+    split at h
+    · cases h
+    · rename_i ri hri
+      cases h
+      simp only [instTop_mono hr, instTop_mono hri]
 
 theorem flattenF_fuel_le {f f' : Nat} {lib : Lib} {t : Path} {m : FlatModel} (h : flattenF f lib t = .ok m)
     (hle : f ≤ f') : flattenF f' lib t = .ok m := by
